@@ -555,6 +555,50 @@ fn depth_sweep() -> Sweep {
     )
 }
 
+// Terms whose operators are stuck on variables (every binary operator on x and y, on a variable and a
+// literal, on a variable and an operand that still reduces; the negation; the same as the condition of a
+// conditional), all ordered pairs: hole-free (a success must be consistent; a term against itself and
+// against its reduct — `x op (1 + 1)` against `x op 2` — must succeed), and with a hole punched at each
+// of the first six positions of the left term, in both argument orders.
+fn stuck_pairs_sweep() -> Sweep {
+    let ts = Rc::new(crate::props::c06::stuck_operator_terms());
+    let n = ts.len() as u64;
+    let t2 = ts.clone();
+    Sweep::new(
+        "ordered pairs of terms whose operators are stuck on variables, hole-free and with a hole punched in the left one",
+        n * n,
+        move |idx| {
+            let (ta, a) = &ts[(idx / n) as usize];
+            let (tb, b) = &ts[(idx % n) as usize];
+            count!("term_pairs");
+            count!("stuck_operator_pairs");
+            let d = |pa: &M, pb: &M| format!("unify of {}  and  {}   (from {ta} and {tb})", pa.show(), pb.show());
+            check_pair(a, b, &|| d(a, b));
+            // a term and itself, a term and its reduct
+            if ta == tb || ta.replace("(1 + 1)", "2") == *tb || tb.replace("(1 + 1)", "2") == *ta {
+                let (ra, rb) = (to_real(a, &mut Default::default()), to_real(b, &mut Default::default()));
+                let mut dc = vec![];
+                match bind::guard(|| crate::unifier::unify(&ra, &rb, &mut dc)) {
+                    Ok(true) => {
+                        count!("reduct_unified");
+                        count!("nontrivial");
+                    }
+                    Ok(false) => violation("reduct-not-unified", &d(a, b), "true: a hole-free term unifies with itself and with its reducts", "false"),
+                    Err(m) => violation("unify-panic", &d(a, b), "true", &m),
+                }
+            }
+            let mut pa = vec![];
+            positions(a, 0, &mut pa);
+            for (p, _) in pa.iter().enumerate().take(8) {
+                let holed = replace_at(a, p, &M::Hole(0, 0), &mut 0);
+                check_pair(&holed, b, &|| d(&holed, b));
+                check_pair(b, &holed, &|| d(b, &holed));
+            }
+        },
+        move |idx| format!("{}  ~  {}", t2[(idx / n) as usize].0, t2[(idx % n) as usize].0),
+    )
+}
+
 // The occurs check through transparent definitions. The context ends in a group of one or two type
 // definitions of which one contains the hole (`t = ?h -> int`, `t = int -> ?h`, `t = (x : ?h) -> ?h`,
 // `t = ?h`) and the other, if any, is an alias of it (`u = t`, before or after it); the hole is unified
@@ -676,7 +720,7 @@ impl Prop for C12 {
         "C12"
     }
     fn sweeps(&self, tier: Tier) -> Vec<Sweep> {
-        vec![punch_sweep(tier), pairs_sweep(tier), crate::props::c18::unify_under_context_sweep(tier), depth_sweep(), context_occurs_sweep()]
+        vec![punch_sweep(tier), pairs_sweep(tier), crate::props::c18::unify_under_context_sweep(tier), depth_sweep(), context_occurs_sweep(), stuck_pairs_sweep()]
     }
     fn evidence(&self, tier: Tier) -> EvidenceSpec {
         EvidenceSpec {
